@@ -70,7 +70,7 @@ class Ctx:
         sub, err = cache[key]
         got = set()
         for r in sub.rules:
-            if r.id in rule_ids and r.id not in got and not any(x is r for x in self.rules):
+            if r.id in rule_ids and r.id not in got and not any(x is r or x.id == r.id for x in self.rules):
                 got.add(r.id)
                 if why and '(shared' not in r.title:
                     r.title = r.title + f' (shared with {modname.upper()}: {why})'
@@ -193,11 +193,14 @@ def run_property(prop, runner, explanation, tier, seed, root):
     broken = None
     try:
         runner(ctx)
+        from .depends import adopt
+        adopt(ctx)
         if tier == 'thorough':
             # second build flavour: every -m*/-DINTEL_* flag stripped (portable code paths of the kernels)
             sub = Ctx(prop, tier, seed, root)
             sub.flavour = 'portable'
             runner(sub)
+            adopt(sub)
             for r in sub.rules:
                 r.id = r.id + '.portable'
                 for i in r.instances:
